@@ -78,6 +78,15 @@ func (e *Engine) call(fr *frame, st *State, in *ssa.Call) *State {
 			classes = append(classes, 2)
 			continue
 		}
+		if e.Opaque[f] {
+			// the client has established that f has no effect on caller-visible
+			// memory; its results are left unconstrained
+			s := st.Clone()
+			e.freshCallResult(s, in)
+			outs = append(outs, s)
+			classes = append(classes, 2)
+			continue
+		}
 		if sum := e.Summaries[f]; sum != nil && c.IsInvoke() {
 			// modular treatment of the packet decoders at the datagram level: their
 			// own obligations are discharged by their root analysis (any input, zero
@@ -106,6 +115,9 @@ func (e *Engine) call(fr *frame, st *State, in *ssa.Call) *State {
 			s := st.Clone()
 			e.SummarisedRecursive[shortFn(f)]++
 			e.conservativeCall(nil, s, in, f, args)
+			if e.PostCallHook != nil {
+				e.PostCallHook(e, s, in, f)
+			}
 			outs = append(outs, s)
 			classes = append(classes, 2)
 			continue
@@ -118,7 +130,7 @@ func (e *Engine) call(fr *frame, st *State, in *ssa.Call) *State {
 			classes = append(classes, 2)
 			continue
 		}
-		if e.CallHook != nil && fr.check {
+		if e.CallHook != nil && (fr.check || e.HooksAlways) {
 			e.CallHook(e, st, in, f)
 		}
 		s := st.Clone()
@@ -810,6 +822,9 @@ func (e *Engine) appendObligation(fr *frame, st *State, in ssa.Instruction, add 
 func (e *Engine) external(fr *frame, st *State, in *ssa.Call, f *ssa.Function, args []ssa.Value) {
 	name := f.String()
 	e.Externals[name]++
+	if e.ExternalHook != nil && (fr.check || e.HooksAlways) {
+		e.ExternalHook(e, st, in, name, args)
+	}
 	need := func(i int, n int64, what string) {
 		if i < len(args) && e.AccessHook != nil && fr.check {
 			// read extent relative to the slice the argument was cut from: low + n
